@@ -29,6 +29,12 @@ CHECKS = {
  "C04": ("other", "Inventory + discharge: every panic-capable or UB-capable construct (unwrap/expect, panic!/unreachable!, bounds checks, range/Vec/Captures indexing, division, unsafe calls, println!) on a path reachable from main in the RELEASE configuration is listed from MIR (about 370 sites) and must be discharged by a checked local rule (infallible String formatting; flume statistics sends; environment/start-up resources; constant regexes; fixed-size loads and constant indices under inferred slice min-length contracts that are verified at every call site incl. chunks_exact sizes; set_len after read_exact with the same n; non-zero constant divisors), or be individually justified in justified/c04.json (one exact site key, one reason, optional machine-checked `requires` clause such as a dominance fact, a guarded-by fact, an FSM precedence fact or a classification-table fact), or be a recorded known finding (F5b, F6a-d). Any new site, or a site whose rule/requires clause stops holding, is reported. Also the scanner's range-check/loop-progress conditions for termination. This is a reviewed discharge table, not a proof of panic freedom; time bound and memory exhaustion are not decided.",
          "Trusted: rustc nightly front end, /verif/driver (release-flag extraction), fpv call graph (CHA; generated derive/clap code excluded), the reviewed reasons in justified/c04.json.",
          "MIR inventory over the release call graph + per-site discharge rules (slice length contracts, dominance, provenance) + reviewed exception table", "DESIGN.md §3 C04"),
+ "C05": ("other", "Order-insensitivity of every multi-producer result field: StatType variants are attributed to thread roles through the call graph (validators are multi-instance); the set of multi-producer variants must be exactly {Error, Fatal, AlpideStats}; AlpideStats is accumulated by field-wise sums only (checked on the typed syntax tree of sum()), Error goes to an order-sensitive Vec which finalize_stats sorts on every path, with a stable sort, before derived containers are computed, before printing, writing or comparing; links are sorted in finalize; finalisation is skipped only in view/stdout-output mode; all observations are dominated by the end of the Controller's receive loop. Fatal is exempt (the property excludes fatal runs).",
+         "Trusted: rustc nightly front end, /verif/driver, fpv call graph/thread roles, the reviewed list of stable sort functions of std.",
+         "call-graph producer attribution + THIR accumulator shape + MIR dominance/must-pass-through for normalisation", "DESIGN.md §3 C05"),
+ "C15": ("other", "Comparison completeness of the statistics file (structural half): for each of the 7 structs in the serialisable closure of StatsCollector every field is either compared in validate_fields (same field on both sides) and copied from other.<field> into the rebuilt literal, or delegated to the sub-struct's validate_other with matching fields (is_finalized is the one exempt leaf); all closure types derive Serialize and Deserialize without skip/default/rename attributes; write_stats serialises the root that Controller::run deserialises; a mismatch stores the any-errors flag on all paths; the compared data is normalised (shares R5.3 of C05). Does not decide the behaviour of serde_json/toml.",
+         "Trusted: rustc nightly front end, /verif/driver (attributes, impl table), fpv THIR walkers.",
+         "type-closure scan + THIR field-pair extraction + MIR must-pass-through for the flag store", "DESIGN.md §3 C15"),
 }
 
 NOT_APPLICABLE = {
